@@ -89,7 +89,7 @@ pub(super) fn std_io() -> FunctionMap {
 
     std_function!(functions => fn DISPLAYF(fstring: Value::String, args: Value::List) {
         let builder= format(fstring, args).expect("Incorrect number of format arguments. Failed to format");
-        println!("{}", builder);
+        display!("{}\n", builder);
 
         Ok(Value::Null)
     });
